@@ -55,7 +55,9 @@ func (q *Quadtree) Add(p orb.Pointer) error {
 	}
 
 	point := p.Point()
-	if !q.bound.Contains(point) {
+	if math.IsNaN(point[0]) || math.IsNaN(point[1]) || !q.bound.Contains(point) {
+		// a NaN coordinate is inside no bound (Bound.Contains only has negated comparisons,
+		// which are all false for NaN)
 		return ErrPointOutsideOfBounds
 	}
 
